@@ -1162,6 +1162,11 @@ def list_provenance(fn, name):
         item = a.value.elts[0] if isinstance(a, ast.AugAssign) and isinstance(a.value, ast.List) and len(a.value.elts) == 1 else (a.args[0] if isinstance(a, ast.Call) else None)
         if item is None:
             return None
+        # the appended item may be a local computed from the loop variable just before: idx = f(p); name.append(idx)
+        if isinstance(item, ast.Name) and item.id != lp.target.id:
+            defs = [y for y in ast.walk(lp) if isinstance(y, ast.Assign) and len(y.targets) == 1 and is_name(y.targets[0], item.id)]
+            if len(defs) == 1 and defs[0].lineno < a.lineno:
+                item = defs[0].value
         uses = {x.id for x in ast.walk(item) if isinstance(x, ast.Name)}
         if lp.target.id not in uses:
             return None
@@ -1607,6 +1612,14 @@ def lift0():
 PHASE_CONF_WRITERS = {"__init__", "from_file", "add_source", "add_comp", "change_comp", "del_comp", "set_comp_phases"}
 
 
+def _only_called_by(model, name, allowed, depth=3):
+    """a private helper is covered by the permission of its callers when every caller (transitively) is permitted"""
+    if not name.startswith("_") or depth == 0:
+        return False
+    callers = [qn.split(".")[-1] for mod, qn, fn in model.all_functions() if mod == "system" and qn.split(".")[-1] != name and name in self_calls(fn)]
+    return bool(callers) and all(c in allowed or _only_called_by(model, c, allowed, depth - 1) for c in callers)
+
+
 def phase_conf_writers_rule(model, rep, rule):
     """who may write the per-component phase configuration (it decides which components are inactive in a phase)"""
     rel = model.rel("system")
@@ -1628,7 +1641,7 @@ def phase_conf_writers_rule(model, rep, rule):
                 hit = x
             if hit is not None:
                 n += 1
-                if short not in PHASE_CONF_WRITERS:
+                if short not in PHASE_CONF_WRITERS and not _only_called_by(model, short, PHASE_CONF_WRITERS):
                     ok = False
                     rep.violation(rule, "system.%s" % qn, "%s:%d" % (rel, hit.lineno), "%s rewrites the per-component phase configuration: components configured as inactive in a phase can silently become active" % short, "phase_conf written by " + short)
     if n == 0:
